@@ -384,6 +384,64 @@ def check_inprocess(ctx, cfg, r, thorough, only=None):
     return base
 
 
+def crop_calendars(rep, ctx, thorough):
+    """(b) over state that is carried for months: land with growing surfaces (crop calendar, nutrient pools; spring- and
+    autumn-sown crops whose season wraps over new year) run over 5-10 months that cross year ends - leap years among them -
+    as a single call and as 2-4 consecutive calls cut at random days; bit-identical results required"""
+    r = C.rng("C13-crop-calendars")
+    n = 30 if thorough else 10
+    st = {"models": 0, "chunkings": 0, "autumn_sown": 0, "sown_in_a_leap_year": 0, "cut_after_new_year": 0, "timesteps": 0, "run_errors": 0}
+    for i in range(n):
+        year = [2000, 2003, 2004, 1999, 2000, 2001][i % 6]
+        start = f"{year}-{r.choice(['07-20', '08-15', '09-01', '09-20', '09-20', '02-10'])}"
+        nd = r.choice([200, 240, 280]) if not thorough else r.choice([200, 280, 330, 400])
+        cfg = NG.gen_model(r, ndates=nd, polset="default", size="land", opts={"growing": True, "start": start})
+        autumn = r.random() < 0.6
+        for nd_ in cfg["nodes"]:
+            for sf in nd_.get("surfaces", []):
+                if sf["type_"] == "GrowingSurface":
+                    if autumn:
+                        sf["sowing_day"], sf["harvest_day"] = r.choice([(274, 210), (258, 196), (288, 222)])
+                    else:
+                        sf["sowing_day"], sf["harvest_day"] = r.choice([(91, 285), (60, 240)])
+                    sf["type_"] = r.choice(["GrowingSurface", "GrowingSurface", "IrrigationSurface"])
+                    if sf["type_"] == "IrrigationSurface":
+                        sf["irrigation_coefficient"] = 0.0      # (nothing to pull irrigation from in these networks)
+        cfg = roundtrip(cfg)
+        base = run_once(cfg)
+        st["models"] += 1
+        st["autumn_sown"] += autumn
+        st["timesteps"] += nd
+        sow = next((sf["sowing_day"] for nd_ in cfg["nodes"] for sf in nd_.get("surfaces", []) if "sowing_day" in sf), None)
+        import datetime
+        d0 = datetime.date.fromisoformat(cfg["dates"][0])
+        sow_dates = [d for d in (d0 + datetime.timedelta(days=k) for k in range(nd)) if sow is not None and d.timetuple().tm_yday == sow]
+        leap = any(d.year % 4 == 0 for d in sow_dates)
+        st["sown_in_a_leap_year"] += leap
+        rep.add_eval(("C13", "crop", start, nd, autumn, i), nontrivial=base["err"] is None)
+        if base["err"]:
+            st["run_errors"] += 1
+            continue
+        for k in range(4 if not thorough else 6):
+            # cuts anywhere, and one chunking each with a cut in the first and in the last third of the range
+            cuts = sorted(r.sample(range(1, nd), r.choice([1, 1, 2, 3])))
+            if k == 0:
+                cuts = sorted(set(cuts + [r.randint(2 * nd // 3, nd - 1)]))
+            elif k == 1:
+                cuts = sorted(set(cuts + [r.randint(1, nd // 3)]))
+            ch = list(zip([0] + cuts, cuts + [nd]))
+            st["cut_after_new_year"] += any(cfg["dates"][c][:4] != cfg["dates"][0][:4] for c in cuts)
+            res = run_once(cfg, ch)
+            st["chunkings"] += 1
+            d = first_diff(base, res)
+            if d:
+                ctx.bad(f"land with a crop calendar (sowing day {sow}, {'autumn' if autumn else 'spring'}-sown): running "
+                        f"{cfg['dates'][0]}..{cfg['dates'][-1]} as consecutive calls cut at {[cfg['dates'][c] for c in cuts]} differs from the single run: {d}",
+                        cfg, {"check": "chunk", "chunks": [list(x) for x in ch]})
+                break
+    rep.monitor["C13_crop_calendars"] = st
+
+
 def run(rep, thorough):
     r = C.rng("C13-monitor")
     ctx = Ctx(rep)
@@ -416,6 +474,7 @@ def run(rep, thorough):
     div = {"cfg": roundtrip(divergent_cfg()), "other": None, "seeds": list(range(8)), "kind": "divergent", "base": None}
     with tempfile.TemporaryDirectory(prefix="c13_") as tmp:
         seen = process_checks(ctx, cases + [div], tmp)
+    crop_calendars(rep, ctx, thorough)
     ctx.stats["hash_seeds"] = len(seeds)
     ctx.stats["divergent"] = {"seeds": len(div["seeds"]), "distinct_river_orders": len(div["orders"]), "distinct_digests": len(div["digests"])}
     rep.add_eval(("C13", "divergent"), nontrivial=True)
